@@ -566,15 +566,22 @@ def known_call_at_do_body_end(case, vio):
             and "call-at-do-body-end" in _model_of(case, calls=True).flags)
 
 
+def known_pause_at_steploop_body_end(case, vio):
+    """a 'pause' that is the last instruction of a 'do ... +loop' body finishes the iteration before pausing: the step has
+    already been popped (or found missing) when the machine is observed at that pause"""
+    return vio.get("bucket", "").startswith("model:") and "pause-at-steploop-body-end" in _model_of(case, calls=True).flags
+
+
 def known_structure_word_in_comment(case, vio):
     """the parser looks for the closing word of if/do/begin/: before it removes comments: a structure word inside a comment is
-    taken for program structure (valid programs rejected, unbalanced ones accepted)"""
-    if not vio.get("bucket", "").startswith("compile:"):
+    taken for program structure (valid programs rejected, unbalanced ones accepted, or compiled to a different program)"""
+    if not vio.get("bucket", "").startswith(("compile:", "model:")):
         return False
     return any(t in MF.STRUCTURE_IN_COMMENT for body in MF.comments_of(case["source"]) for t in body)
 
 
 KNOWN = {
     "forth_structure_word_in_comment": known_structure_word_in_comment,
+    "forth_pause_at_steploop_body_end": known_pause_at_steploop_body_end,
     "forth_call_at_do_body_end": known_call_at_do_body_end,
 }
